@@ -14,6 +14,22 @@ From LH Require Import Base.Bytes Model.Lexer Model.Ast.
 Import ListNotations.
 Local Open Scope Z_scope.
 
+(* ------------------------------------------------------------------ repairs (fix: commits of the binder family)
+   One flag per diff /verif/fixes/<Cxx>-<slug>.diff: false = the code before the repair, true = after.  The model
+   functions WITHOUT a suffix are the code now in /repo (= the `deployed` variant, written out directly: the drivers
+   extract them and the positive theorems are about them); the `_fx` functions are the same code with the flags as a
+   parameter (the pre-fix behaviour stays executable: `no_fixes` reproduces every refuted class), and
+   `..._fx deployed = ...` is proved (Proofs/ResolveFixes.v). *)
+Record bfixes := mkBF {
+  bf_same_pos : bool;    (* C06-same-pos-other-file: references skip a location inside the definition's range only in
+                            the definition's FILE (ignoreDefineLoc was compared without the file name) *)
+  bf_doc_end : bool      (* C05-doc-end: definition / references / highlight / rename answer a cursor at the very end
+                            of the document (offset = len(contents)) as hover does; before: `offset >= len` gave up *)
+}.
+Definition no_fixes : bfixes := mkBF false false.
+Definition all_fixes : bfixes := mkBF true true.
+Definition deployed : bfixes := mkBF true true.
+
 (* ------------------------------------------------------------------ Location predicates (lexer/common.go) *)
 Definition loc_eqb (a b : loc) : bool :=                      (* CompareTwoLoc *)
   (sl a =? sl b) && (el a =? el b) && (sc a =? sc b) && (ec a =? ec b).
